@@ -798,6 +798,121 @@ Theorem fuel_suffices sg w low range zone s : (0 < BYTES w (length low))%nat ->
   sample_loop (fuel_for s) sg w low range zone s <> ROutOfFuel.
 Proof. intros H. apply sample_loop_fuel; [exact H | unfold fuel_for; lia]. Qed.
 
+(* ================= unbiased by construction: preimages of every value of the range ================= *)
+
+(* what one iteration of the rejection loop does with the word v *)
+Definition one_draw (sg : bool) (w : Z) (low range zone v : list Z) : option (list Z) :=
+  if cmp_le (ucmp (fst (U_widening_mul w v range)) zone)
+  then Some (ty_wrapping_add sg w low (snd (U_widening_mul w v range))) else None.
+
+Lemma sample_loop_one_draw f sg w low range zone s v rest :
+  U_standard w (length low) s = RVal v rest ->
+  sample_loop (S f) sg w low range zone s =
+    match one_draw sg w low range zone v with
+    | Some r => RVal r rest
+    | None => sample_loop f sg w low range zone rest
+    end.
+Proof.
+  intros H. rewrite (sample_loop_first f sg w low range zone s v rest H). unfold one_draw.
+  destruct (cmp_le (ucmp (fst (U_widening_mul w v range)) zone)); reflexivity.
+Qed.
+
+(* For every value t of [low, high] (in the type's own reading, signed ranges spanning zero included),
+   the words v on which one iteration returns t are exactly v0(t - low) .. v0(t - low) + q - 1:
+   every value of the range has exactly q accepted preimages, whatever BITS is. *)
+Theorem one_draw_preimages (PW : widening_mul_spec) (PA : wrapping_add_spec) (PS : wrapping_sub_spec)
+    sg w n low high zone q :
+  0 < w -> (0 < n)%nat -> wf w n low -> wf w n high -> wf w n zone ->
+  tval sg w low <= tval sg w high ->
+  let range := range_of sg w low high in
+  uval w range <> 0 ->
+  uval w zone + 1 = uval w range * q ->
+  forall t, tval sg w low <= t <= tval sg w high ->
+    let v0 := v0_of (Mod w n) (uval w range) (t - tval sg w low) in
+    (0 <= v0 /\ v0 + q <= Mod w n) /\
+    forall v, wf w n v ->
+      ((exists r, one_draw sg w low range zone v = Some r /\ tval sg w r = t) <-> v0 <= uval w v < v0 + q).
+Proof.
+  intros Hw Hn Hl Hh Hz Hle range Hnz Hq t Ht v0.
+  destruct (range_of_spec PA PS sg w n low high Hw Hn Hl Hh) as [Wrg Er]. fold range in Wrg, Er.
+  pose proof (uval_bounds w n range ltac:(lia) Wrg) as Br. pose proof (Mod_pos w n ltac:(lia)) as HM.
+  pose proof (tval_window sg w n low Hw Hn Hl) as Wl. pose proof (tval_window sg w n high Hw Hn Hh) as Wh.
+  assert (Erange : uval w range = tval sg w high - tval sg w low + 1).
+  { rewrite Er in *. destruct (Z.eq_dec (tval sg w high - tval sg w low + 1) (Mod w n)) as [E|E].
+    - rewrite E, Z_mod_same_full in Hnz. contradiction.
+    - apply Z.mod_small. lia. }
+  assert (Hh' : 0 <= t - tval sg w low < uval w range) by lia.
+  destruct (model_accept_bij PW w n range zone q Hw Wrg Hz ltac:(lia) Hq (t - tval sg w low) Hh') as [Hb Hiff].
+  split; [exact Hb|]. intros v Hv. unfold v0. rewrite <- (Hiff v Hv). clear Hiff.
+  destruct (PW w n v range Hw Hv Wrg) as (Wlo & Whi & Eprod).
+  pose proof (uval_bounds w n _ ltac:(lia) Whi) as Bhi. pose proof (uval_bounds w n _ ltac:(lia) Wlo) as Blo.
+  pose proof (uval_bounds w n v ltac:(lia) Hv) as Bv.
+  assert (Hhi : uval w (snd (U_widening_mul w v range)) < uval w range) by nia.
+  (* the value of low + hi in the type's reading *)
+  assert (Eval : tval sg w (ty_wrapping_add sg w low (snd (U_widening_mul w v range)))
+                 = tval sg w low + uval w (snd (U_widening_mul w v range))).
+  { rewrite ty_wrapping_add_U. destruct (PA w n low _ Hw Hl Whi) as [Wr Eu].
+    apply (tval_unique sg w n _ _ Hw Hn Wr); [lia|].
+    rewrite Eu, Z.mod_mod by lia.
+    destruct (tval_shift sg w n low Hl) as [el Eel]. rewrite Eel.
+    replace (uval w low - el * Mod w n + uval w (snd (U_widening_mul w v range)))
+      with (uval w low + uval w (snd (U_widening_mul w v range)) + (- el) * Mod w n) by ring.
+    rewrite Z_mod_plus_full. reflexivity. }
+  unfold one_draw. destruct (cmp_le (ucmp (fst (U_widening_mul w v range)) zone)).
+  - split.
+    + intros (r & Hr & Ht').
+      assert (Hr' : ty_wrapping_add sg w low (snd (U_widening_mul w v range)) = r) by congruence.
+      rewrite <- Hr', Eval in Ht'. split; [reflexivity | lia].
+    + intros [_ Hhi']. eexists. split; [reflexivity|]. rewrite Eval. lia.
+  - split; [intros (r & Hr & _); discriminate | intros [Hf _]; discriminate].
+Qed.
+
+(* the two zones the code computes, plugged into one_draw_preimages *)
+Definition equal_preimages (sg : bool) (w : Z) (n : nat) (low high zone : list Z) : Prop :=
+  let range := range_of sg w low high in
+  exists q, 0 < q /\
+    forall t, tval sg w low <= t <= tval sg w high ->
+      let v0 := v0_of (Mod w n) (uval w range) (t - tval sg w low) in
+      (0 <= v0 /\ v0 + q <= Mod w n) /\
+      forall v, wf w n v ->
+        ((exists r, one_draw sg w low range zone v = Some r /\ tval sg w r = t) <-> v0 <= uval w v < v0 + q).
+
+Theorem sample_single_inclusive_unbiased
+    (PW : widening_mul_spec) (PA : wrapping_add_spec) (PS : wrapping_sub_spec)
+    (PR : rem_spec) (PSH : shl_spec) (PLZ : leading_zeros_spec) sg dbg w n low high zone :
+  0 < w -> (0 < n)%nat -> wf w n low -> wf w n high ->
+  tval sg w low <= tval sg w high ->
+  uval w (range_of sg w low high) <> 0 ->
+  single_zone dbg w (range_of sg w low high) = Ret zone ->
+  equal_preimages sg w n low high zone.
+Proof.
+  intros Hw Hn Hl Hh Hle Hnz Hz.
+  destruct (range_of_spec PA PS sg w n low high Hw Hn Hl Hh) as [Wrg _].
+  pose proof (uval_bounds w n _ ltac:(lia) Wrg) as Br.
+  destruct (single_zone_ok PS PR PSH PLZ dbg w n _ zone Hw Hn Wrg ltac:(lia) Hz) as (Wz & Bz & q & Eq & _).
+  exists q. split; [nia|]. intros t Ht.
+  exact (one_draw_preimages PW PA PS sg w n low high zone q Hw Hn Hl Hh Wz Hle Hnz Eq t Ht).
+Qed.
+
+Theorem uniform_sample_unbiased
+    (PW : widening_mul_spec) (PA : wrapping_add_spec) (PS : wrapping_sub_spec) (PR : rem_spec)
+    sg dbg w n low high u zone :
+  0 < w -> (0 < n)%nat -> wf w n low -> wf w n high ->
+  tval sg w low <= tval sg w high ->
+  uval w (range_of sg w low high) <> 0 ->
+  uniform_new_inclusive sg dbg w low high = Ret u ->
+  U_sub dbg w (UMAX w (length (u_range u))) (u_z u) = Ret zone ->
+  equal_preimages sg w n low high zone.
+Proof.
+  intros Hw Hn Hl Hh Hle Hnz Hu Hz.
+  destruct (range_of_spec PA PS sg w n low high Hw Hn Hl Hh) as [Wrg _].
+  pose proof (uval_bounds w n _ ltac:(lia) Wrg) as Br.
+  destruct (uniform_zone_ok PS PR sg dbg w n low high u zone Hw Hn Hl Wrg ltac:(lia) Hu Hz) as (Wz & Bz & Eq).
+  destruct (uniform_new_inclusive_inv sg dbg w low high u Hu) as [_ E2]. rewrite E2 in Eq.
+  exists (Mod w n / uval w (range_of sg w low high)). split; [nia|]. intros t Ht.
+  exact (one_draw_preimages PW PA PS sg w n low high zone _ Hw Hn Hl Hh Wz Hle Hnz Eq t Ht).
+Qed.
+
 (* ================= readable corollaries: unsigned = uval, signed = sval ================= *)
 
 Definition range_premises : Prop := widening_mul_spec /\ wrapping_add_spec /\ wrapping_sub_spec.
@@ -849,3 +964,322 @@ Qed.
 (* signed Standard and signed fills are the unsigned ones on the bit pattern *)
 Lemma I_standard_is_U w n s : I_standard w n s = U_standard w n s.
 Proof. reflexivity. Qed.
+
+(* ================= no panic, no fuel exhaustion: a draw returns a value or runs the script dry ================= *)
+
+Lemma sample_loop_no_panic sg w low range zone fuel s : sample_loop fuel sg w low range zone s <> RPanic.
+Proof.
+  revert s. induction fuel as [|f IH]; intros s; cbn [sample_loop]; [discriminate|].
+  unfold U_standard. destruct (try_fill_bytes _ s) as [[bs rest]|]; [|discriminate].
+  destruct (U_widening_mul w _ range) as [lo hi]. destruct (cmp_le (ucmp lo zone)); [discriminate | apply IH].
+Qed.
+
+Lemma ty_standard_no_panic sg w n s : ty_standard sg w n s <> RPanic.
+Proof. rewrite ty_standard_U. unfold U_standard. destruct (try_fill_bytes _ s) as [[bs rest]|]; discriminate. Qed.
+
+Lemma U_sub_total (PF : U_overflowing_sub_flag_spec) dbg w n a b :
+  0 < w -> wf w n a -> wf w n b -> uval w b <= uval w a -> U_sub dbg w a b = Ret (U_wrapping_sub w a b).
+Proof.
+  intros Hw Ha Hb Hle. unfold U_sub, U_strict_sub, U_checked_sub, tuple_to_option, option_expect, U_wrapping_sub.
+  destruct dbg; [|reflexivity]. rewrite (PF w n a b Hw Ha Hb).
+  destruct (Z.ltb_spec (uval w a) (uval w b)); [lia | reflexivity].
+Qed.
+
+Lemma ty_le_true (PI : icmp_spec) sg w n a b : 0 < w -> (0 < n)%nat -> wf w n a -> wf w n b ->
+  tval sg w a <= tval sg w b -> ty_le sg w a b = true.
+Proof.
+  intros Hw Hn Ha Hb H. unfold ty_le. destruct sg; cbn [tval] in H.
+  - rewrite (PI w n a b Hw Hn Ha Hb). unfold cmp_le. destruct (Z.compare_spec (sval w a) (sval w b)); try reflexivity; lia.
+  - rewrite (ucmp_value w Hw n a b Ha Hb). unfold cmp_le. destruct (Z.compare_spec (uval w a) (uval w b)); try reflexivity; lia.
+Qed.
+
+Lemma ty_lt_true (PI : icmp_spec) sg w n a b : 0 < w -> (0 < n)%nat -> wf w n a -> wf w n b ->
+  tval sg w a < tval sg w b -> ty_lt sg w a b = true.
+Proof.
+  intros Hw Hn Ha Hb H. unfold ty_lt. destruct sg; cbn [tval] in H.
+  - rewrite (PI w n a b Hw Hn Ha Hb). unfold cmp_lt. destruct (Z.compare_spec (sval w a) (sval w b)); try reflexivity; lia.
+  - rewrite (ucmp_value w Hw n a b Ha Hb). unfold cmp_lt. destruct (Z.compare_spec (uval w a) (uval w b)); try reflexivity; lia.
+Qed.
+
+Lemma ints_to_reject_total (PS : wrapping_sub_spec) (PR : rem_spec) (PF : U_overflowing_sub_flag_spec)
+    dbg w n range : 0 < w -> (0 < n)%nat -> wf w n range -> 0 < uval w range ->
+  exists z, ints_to_reject dbg w range = Ret z.
+Proof.
+  intros Hw Hn Hr Hpos. unfold ints_to_reject. rewrite (wf_length _ _ _ Hr).
+  destruct (UMAX_spec w n Hw) as [WM EM].
+  pose proof (uval_bounds w n range ltac:(lia) Hr) as Br.
+  rewrite (U_sub_total PF dbg w n _ _ Hw WM Hr ltac:(lia)). cbn [obind].
+  destruct (PS w n (UMAX w n) range Hw WM Hr) as [Wt _].
+  assert (Hone : digit_ok w 1) by (unfold digit_ok; pose proof (B_ge_2 w Hw); lia).
+  destruct (U_add_digit_spec w n _ 1 Hw Hn Wt Hone) as (t1 & E1 & W1 & _).
+  rewrite E1. cbn [obind].
+  destruct (PR w n t1 range Hw W1 Hr ltac:(lia)) as (r & Er & _). exists r. exact Er.
+Qed.
+
+Lemma single_zone_total (PS : wrapping_sub_spec) (PR : rem_spec) (PF : U_overflowing_sub_flag_spec)
+    (PLZ : leading_zeros_spec) dbg w n range : 0 < w -> (0 < n)%nat -> wf w n range -> 0 < uval w range ->
+  exists zone, single_zone dbg w range = Ret zone.
+Proof.
+  intros Hw Hn Hr Hpos. unfold single_zone. rewrite (wf_length _ _ _ Hr).
+  pose proof (uval_bounds w n range ltac:(lia) Hr) as Br.
+  destruct (bits_of w (UMAX w n) <=? 16).
+  - destruct (ints_to_reject_total PS PR PF dbg w n range Hw Hn Hr Hpos) as [z Ez].
+    rewrite Ez. cbn [obind].
+    destruct (ints_to_reject_spec PS PR dbg w n range z Hw Hn Hr Hpos Ez) as [Wz Uz].
+    destruct (UMAX_spec w n Hw) as [WM EM].
+    pose proof (Z.mod_pos_bound (Mod w n - 1 - uval w range + 1) (uval w range) Hpos).
+    eexists. apply (U_sub_total PF dbg w n _ _ Hw WM Wz). lia.
+  - rewrite (PLZ w n range Hw Hr).
+    assert (Ebl : bitlen (uval w range) = Z.log2 (uval w range) + 1).
+    { unfold bitlen. destruct (Z.eqb_spec (uval w range) 0); [lia | reflexivity]. }
+    assert (Hlt : Z.log2 (uval w range) < bits w n).
+    { apply Z.log2_lt_pow2; [lia | apply Br]. }
+    pose proof (Z.log2_nonneg (uval w range)).
+    unfold U_shl, U_strict_shl, U_checked_shl, U_wrapping_shl, U_overflowing_shl, option_expect.
+    rewrite (wf_length _ _ _ Hr).
+    destruct (Z.leb_spec (bits w n) (bits w n - bitlen (uval w range))) as [Hle|Hgt]; [lia|].
+    destruct dbg; cbn [obind]; eexists; reflexivity.
+Qed.
+
+(* total form of in_range for sample_single_inclusive: with the fuel the run table passes, on any stream,
+   the outcome is a value inside [low, high] or the stream ran dry — never a panic, never out of fuel *)
+Theorem sample_single_inclusive_total
+    (PW : widening_mul_spec) (PA : wrapping_add_spec) (PS : wrapping_sub_spec) (PR : rem_spec)
+    (PLZ : leading_zeros_spec) (PF : U_overflowing_sub_flag_spec) (PI : icmp_spec)
+    sg dbg w n low high s :
+  0 < w -> (0 < n)%nat -> (0 < BYTES w n)%nat -> wf w n low -> wf w n high -> bytes_ok s ->
+  tval sg w low <= tval sg w high ->
+  sample_single_inclusive (fuel_for s) sg dbg w low high s = ROutOfStream \/
+  exists r rest, sample_single_inclusive (fuel_for s) sg dbg w low high s = RVal r rest /\
+                 wf w n r /\ tval sg w low <= tval sg w r <= tval sg w high.
+Proof.
+  intros Hw Hn HB Hl Hh Hb Hle.
+  destruct (sample_single_inclusive (fuel_for s) sg dbg w low high s) as [r rest| | |] eqn:E.
+  - right. exists r, rest. split; [reflexivity|].
+    exact (sample_single_inclusive_in_range PW PA PS (fuel_for s) sg dbg w n low high s r rest Hw Hn Hl Hh Hb Hle E).
+  - exfalso. unfold sample_single_inclusive in E.
+    rewrite (ty_le_true PI sg w n low high Hw Hn Hl Hh Hle) in E. cbn [negb] in E.
+    destruct (range_of_spec PA PS sg w n low high Hw Hn Hl Hh) as [Wrg _].
+    destruct (is_zero (range_of sg w low high)) eqn:Ez.
+    + exact (ty_standard_no_panic _ _ _ _ E).
+    + assert (0 < uval w (range_of sg w low high)).
+      { pose proof (uval_bounds w n _ ltac:(lia) Wrg).
+        destruct (Z.eq_dec (uval w (range_of sg w low high)) 0) as [E0|]; [|lia].
+        apply (is_zero_uval w) in E0; [congruence | lia | apply Wrg]. }
+      destruct (single_zone_total PS PR PF PLZ dbg w n _ Hw Hn Wrg H) as [zone Ezn].
+      rewrite Ezn in E. exact (sample_loop_no_panic _ _ _ _ _ _ _ E).
+  - left. reflexivity.
+  - exfalso. unfold sample_single_inclusive in E.
+    destruct (negb (ty_le sg w low high)); [discriminate|].
+    destruct (is_zero (range_of sg w low high)).
+    + rewrite ty_standard_U in E. unfold U_standard in E.
+      destruct (try_fill_bytes _ s) as [[bs rest]|]; discriminate.
+    + destruct (single_zone dbg w (range_of sg w low high)); [|discriminate].
+      revert E. apply fuel_suffices. rewrite (wf_length _ _ _ Hl). exact HB.
+Qed.
+
+(* the same for the other entry points *)
+Lemma rres_cases {A} (r : rres A) (P : A -> Prop) :
+  r <> RPanic -> r <> ROutOfFuel -> (forall a rest, r = RVal a rest -> P a) ->
+  r = ROutOfStream \/ exists a rest, r = RVal a rest /\ P a.
+Proof.
+  intros H1 H2 H3. destruct r as [a rest| | |]; [right; exists a, rest; split; [reflexivity | eapply H3; reflexivity] | congruence | left; reflexivity | congruence].
+Qed.
+
+Lemma range_pos w n range : 0 < w -> wf w n range -> is_zero range = false -> 0 < uval w range.
+Proof.
+  intros Hw Wrg Ez. pose proof (uval_bounds w n _ ltac:(lia) Wrg).
+  destruct (Z.eq_dec (uval w range) 0) as [E0|]; [|lia].
+  apply (is_zero_uval w) in E0; [congruence | lia | apply Wrg].
+Qed.
+
+Lemma sample_single_inclusive_no_panic
+    (PA : wrapping_add_spec) (PS : wrapping_sub_spec) (PR : rem_spec)
+    (PLZ : leading_zeros_spec) (PF : U_overflowing_sub_flag_spec) (PI : icmp_spec)
+    fuel sg dbg w n low high s :
+  0 < w -> (0 < n)%nat -> wf w n low -> wf w n high -> tval sg w low <= tval sg w high ->
+  sample_single_inclusive fuel sg dbg w low high s <> RPanic.
+Proof.
+  intros Hw Hn Hl Hh Hle E. unfold sample_single_inclusive in E.
+  rewrite (ty_le_true PI sg w n low high Hw Hn Hl Hh Hle) in E. cbn [negb] in E.
+  destruct (range_of_spec PA PS sg w n low high Hw Hn Hl Hh) as [Wrg _].
+  destruct (is_zero (range_of sg w low high)) eqn:Ez.
+  - exact (ty_standard_no_panic _ _ _ _ E).
+  - destruct (single_zone_total PS PR PF PLZ dbg w n _ Hw Hn Wrg (range_pos w n _ Hw Wrg Ez)) as [zone Ezn].
+    rewrite Ezn in E. exact (sample_loop_no_panic _ _ _ _ _ _ _ E).
+Qed.
+
+Lemma sample_single_inclusive_no_fuel sg dbg w n low high s :
+  (0 < BYTES w n)%nat -> length low = n ->
+  sample_single_inclusive (fuel_for s) sg dbg w low high s <> ROutOfFuel.
+Proof.
+  intros HB Hl E. unfold sample_single_inclusive in E.
+  destruct (negb (ty_le sg w low high)); [discriminate|].
+  destruct (is_zero (range_of sg w low high)).
+  - rewrite ty_standard_U in E. unfold U_standard in E.
+    destruct (try_fill_bytes _ s) as [[bs rest]|]; discriminate.
+  - destruct (single_zone dbg w (range_of sg w low high)); [|discriminate].
+    revert E. apply fuel_suffices. rewrite Hl. exact HB.
+Qed.
+
+Lemma uniform_new_inclusive_sample_no_panic
+    (PA : wrapping_add_spec) (PS : wrapping_sub_spec) (PR : rem_spec)
+    (PF : U_overflowing_sub_flag_spec) (PI : icmp_spec)
+    fuel sg dbg w n low high s :
+  0 < w -> (0 < n)%nat -> wf w n low -> wf w n high -> tval sg w low <= tval sg w high ->
+  uniform_new_inclusive_sample fuel sg dbg w low high s <> RPanic.
+Proof.
+  intros Hw Hn Hl Hh Hle E. unfold uniform_new_inclusive_sample, uniform_new_inclusive in E.
+  rewrite (ty_le_true PI sg w n low high Hw Hn Hl Hh Hle) in E. cbn [negb] in E.
+  destruct (range_of_spec PA PS sg w n low high Hw Hn Hl Hh) as [Wrg _].
+  destruct (is_zero (range_of sg w low high)) eqn:Ez; cbn [negb obind] in E.
+  - unfold uniform_sample in E. cbn [u_range u_low u_z] in E. rewrite Ez in E. cbn [negb] in E.
+    exact (ty_standard_no_panic _ _ _ _ E).
+  - pose proof (range_pos w n _ Hw Wrg Ez) as Hpos.
+    destruct (ints_to_reject_total PS PR PF dbg w n _ Hw Hn Wrg Hpos) as [z Ezr].
+    rewrite Ezr in E. cbn [obind] in E.
+    unfold uniform_sample in E. cbn [u_range u_low u_z] in E. rewrite Ez in E. cbn [negb] in E.
+    destruct (ints_to_reject_spec PS PR dbg w n _ z Hw Hn Wrg Hpos Ezr) as [Wz Uz].
+    destruct (UMAX_spec w n Hw) as [WM EM].
+    pose proof (uval_bounds w n z ltac:(lia) Wz).
+    rewrite (wf_length _ _ _ Wrg) in E.
+    rewrite (U_sub_total PF dbg w n _ _ Hw WM Wz ltac:(lia)) in E.
+    exact (sample_loop_no_panic _ _ _ _ _ _ _ E).
+Qed.
+
+Lemma uniform_new_inclusive_sample_no_fuel sg dbg w n low high s :
+  (0 < BYTES w n)%nat -> length low = n ->
+  uniform_new_inclusive_sample (fuel_for s) sg dbg w low high s <> ROutOfFuel.
+Proof.
+  intros HB Hl E. unfold uniform_new_inclusive_sample in E.
+  destruct (uniform_new_inclusive sg dbg w low high) as [u|] eqn:Eu; [|discriminate].
+  destruct (uniform_new_inclusive_inv sg dbg w low high u Eu) as [E1 E2].
+  unfold uniform_sample in E. rewrite E1 in E.
+  destruct (negb (is_zero (u_range u))).
+  - destruct (U_sub dbg w _ (u_z u)); [|discriminate].
+    revert E. apply fuel_suffices. rewrite Hl. exact HB.
+  - rewrite ty_standard_U in E. unfold U_standard in E.
+    destruct (try_fill_bytes _ s) as [[bs rest]|]; discriminate.
+Qed.
+
+Theorem uniform_new_inclusive_sample_total
+    (PW : widening_mul_spec) (PA : wrapping_add_spec) (PS : wrapping_sub_spec) (PR : rem_spec)
+    (PF : U_overflowing_sub_flag_spec) (PI : icmp_spec)
+    sg dbg w n low high s :
+  0 < w -> (0 < n)%nat -> (0 < BYTES w n)%nat -> wf w n low -> wf w n high -> bytes_ok s ->
+  tval sg w low <= tval sg w high ->
+  uniform_new_inclusive_sample (fuel_for s) sg dbg w low high s = ROutOfStream \/
+  exists r rest, uniform_new_inclusive_sample (fuel_for s) sg dbg w low high s = RVal r rest /\
+                 (wf w n r /\ tval sg w low <= tval sg w r <= tval sg w high).
+Proof.
+  intros Hw Hn HB Hl Hh Hb Hle. apply rres_cases.
+  - apply (uniform_new_inclusive_sample_no_panic PA PS PR PF PI _ sg dbg w n); assumption.
+  - apply (uniform_new_inclusive_sample_no_fuel sg dbg w n); [exact HB | apply Hl].
+  - intros r rest E.
+    exact (uniform_new_inclusive_sample_in_range PW PA PS _ sg dbg w n low high s r rest Hw Hn Hl Hh Hb Hle E).
+Qed.
+
+(* exclusive forms: high - ONE does not panic in debug builds because low < high *)
+Lemma ty_sub_one_total (PS : wrapping_sub_spec) (PF : U_overflowing_sub_flag_spec) (PFI : I_overflowing_sub_flag_spec)
+    sg dbg w n low high :
+  1 < w -> (0 < n)%nat -> wf w n low -> wf w n high -> tval sg w low < tval sg w high ->
+  exists h1, ty_sub sg dbg w high (ONE (length low)) = Ret h1.
+Proof.
+  intros Hw1 Hn Hl Hh Hlt. assert (Hw : 0 < w) by lia. rewrite (wf_length _ _ _ Hl).
+  assert (H4 : 4 <= Mod w n).
+  { unfold Mod. change 4 with (2 ^ 2). apply Z.pow_le_mono_r; nia. }
+  pose proof (ONE_wf w n Hw) as W1. pose proof (tval_window sg w n low Hw Hn Hl) as Wl.
+  pose proof (tval_window sg w n high Hw Hn Hh) as Wh.
+  unfold ty_sub. destruct sg; cbn [tval tmin] in *.
+  - unfold I_sub, I_strict_sub, I_checked_sub, tuple_to_option, option_expect.
+    destruct dbg; [|eexists; reflexivity].
+    rewrite (PFI w n high (ONE n) Hw Hn Hh W1).
+    assert (Es1 : sval w (ONE n) = 1).
+    { unfold sval, to_signed. rewrite (wf_length _ _ _ W1), ONE_uval by exact Hn.
+      pose proof (Mod_even w n Hw Hn). pose proof (Mod_pos w n ltac:(lia)).
+      destruct (Z.ltb_spec 1 (Mod w n / 2)); [reflexivity|].
+      lia. }
+    rewrite Es1. pose proof (Mod_even w n Hw Hn).
+    replace (inS (Mod w n) (sval w high - 1)) with true; [eexists; reflexivity|].
+    symmetry. apply inS_true. lia.
+  - eexists. apply (U_sub_total PF dbg w n _ _ Hw Hh W1). rewrite ONE_uval by exact Hn. lia.
+Qed.
+
+Theorem sample_single_total
+    (PW : widening_mul_spec) (PA : wrapping_add_spec) (PS : wrapping_sub_spec) (PIS : I_overflowing_sub_spec)
+    (PR : rem_spec) (PLZ : leading_zeros_spec) (PF : U_overflowing_sub_flag_spec)
+    (PFI : I_overflowing_sub_flag_spec) (PI : icmp_spec)
+    sg dbg w n low high s :
+  1 < w -> (0 < n)%nat -> (0 < BYTES w n)%nat -> wf w n low -> wf w n high -> bytes_ok s ->
+  tval sg w low < tval sg w high ->
+  sample_single (fuel_for s) sg dbg w low high s = ROutOfStream \/
+  exists r rest, sample_single (fuel_for s) sg dbg w low high s = RVal r rest /\
+                 (wf w n r /\ tval sg w low <= tval sg w r < tval sg w high).
+Proof.
+  intros Hw1 Hn HB Hl Hh Hb Hlt. assert (Hw : 0 < w) by lia.
+  destruct (ty_sub_one_total PS PF PFI sg dbg w n low high Hw1 Hn Hl Hh Hlt) as [h1 E1].
+  destruct (ty_sub_one PW PA PS PIS sg dbg w n low high h1 Hw Hn Hl Hh Hlt E1) as [Wh Eh].
+  apply rres_cases.
+  - unfold sample_single. rewrite (ty_lt_true PI sg w n low high Hw Hn Hl Hh Hlt), E1. cbn [negb].
+    apply (sample_single_inclusive_no_panic PA PS PR PLZ PF PI _ sg dbg w n); try assumption. lia.
+  - unfold sample_single. rewrite (ty_lt_true PI sg w n low high Hw Hn Hl Hh Hlt), E1. cbn [negb].
+    apply (sample_single_inclusive_no_fuel sg dbg w n); [exact HB | apply Hl].
+  - intros r rest E.
+    exact (sample_single_in_range PW PA PS PIS _ sg dbg w n low high s r rest Hw Hn Hl Hh Hb Hlt E).
+Qed.
+
+Theorem gen_range_total
+    (PW : widening_mul_spec) (PA : wrapping_add_spec) (PS : wrapping_sub_spec) (PIS : I_overflowing_sub_spec)
+    (PR : rem_spec) (PLZ : leading_zeros_spec) (PF : U_overflowing_sub_flag_spec)
+    (PFI : I_overflowing_sub_flag_spec) (PI : icmp_spec)
+    sg dbg w n low high s :
+  1 < w -> (0 < n)%nat -> (0 < BYTES w n)%nat -> wf w n low -> wf w n high -> bytes_ok s ->
+  tval sg w low < tval sg w high ->
+  gen_range (fuel_for s) sg dbg w low high s = ROutOfStream \/
+  exists r rest, gen_range (fuel_for s) sg dbg w low high s = RVal r rest /\
+                 (wf w n r /\ tval sg w low <= tval sg w r < tval sg w high).
+Proof.
+  intros Hw1 Hn HB Hl Hh Hb Hlt. assert (Hw : 0 < w) by lia. unfold gen_range.
+  rewrite (ty_lt_true PI sg w n low high Hw Hn Hl Hh Hlt). cbn [negb].
+  apply (sample_single_total PW PA PS PIS PR PLZ PF PFI PI); assumption.
+Qed.
+
+Theorem gen_range_inclusive_total
+    (PW : widening_mul_spec) (PA : wrapping_add_spec) (PS : wrapping_sub_spec) (PR : rem_spec)
+    (PLZ : leading_zeros_spec) (PF : U_overflowing_sub_flag_spec) (PI : icmp_spec)
+    sg dbg w n low high s :
+  0 < w -> (0 < n)%nat -> (0 < BYTES w n)%nat -> wf w n low -> wf w n high -> bytes_ok s ->
+  tval sg w low <= tval sg w high ->
+  gen_range_inclusive (fuel_for s) sg dbg w low high s = ROutOfStream \/
+  exists r rest, gen_range_inclusive (fuel_for s) sg dbg w low high s = RVal r rest /\
+                 wf w n r /\ tval sg w low <= tval sg w r <= tval sg w high.
+Proof.
+  intros Hw Hn HB Hl Hh Hb Hle. unfold gen_range_inclusive.
+  rewrite (ty_le_true PI sg w n low high Hw Hn Hl Hh Hle). cbn [negb].
+  apply (sample_single_inclusive_total PW PA PS PR PLZ PF PI); assumption.
+Qed.
+
+Theorem uniform_new_sample_total
+    (PW : widening_mul_spec) (PA : wrapping_add_spec) (PS : wrapping_sub_spec) (PIS : I_overflowing_sub_spec)
+    (PR : rem_spec) (PF : U_overflowing_sub_flag_spec)
+    (PFI : I_overflowing_sub_flag_spec) (PI : icmp_spec)
+    sg dbg w n low high s :
+  1 < w -> (0 < n)%nat -> (0 < BYTES w n)%nat -> wf w n low -> wf w n high -> bytes_ok s ->
+  tval sg w low < tval sg w high ->
+  uniform_new_sample (fuel_for s) sg dbg w low high s = ROutOfStream \/
+  exists r rest, uniform_new_sample (fuel_for s) sg dbg w low high s = RVal r rest /\
+                 (wf w n r /\ tval sg w low <= tval sg w r < tval sg w high).
+Proof.
+  intros Hw1 Hn HB Hl Hh Hb Hlt. assert (Hw : 0 < w) by lia.
+  destruct (ty_sub_one_total PS PF PFI sg dbg w n low high Hw1 Hn Hl Hh Hlt) as [h1 E1].
+  destruct (ty_sub_one PW PA PS PIS sg dbg w n low high h1 Hw Hn Hl Hh Hlt E1) as [Wh Eh].
+  assert (Eq : uniform_new_sample (fuel_for s) sg dbg w low high s
+               = uniform_new_inclusive_sample (fuel_for s) sg dbg w low h1 s).
+  { unfold uniform_new_sample, uniform_new, uniform_new_inclusive_sample.
+    rewrite (ty_lt_true PI sg w n low high Hw Hn Hl Hh Hlt), E1. reflexivity. }
+  apply rres_cases.
+  - rewrite Eq. apply (uniform_new_inclusive_sample_no_panic PA PS PR PF PI _ sg dbg w n); try assumption. lia.
+  - rewrite Eq. apply (uniform_new_inclusive_sample_no_fuel sg dbg w n); [exact HB | apply Hl].
+  - intros r rest E.
+    exact (uniform_new_sample_in_range PW PA PS PIS _ sg dbg w n low high s r rest Hw Hn Hl Hh Hb Hlt E).
+Qed.
